@@ -61,22 +61,18 @@ func (s script) String() string {
 }
 
 type ofile struct {
-	f   filesystem.FileReadWriter
-	m   *mfile
-	gen int
-	// poisoned: a Truncate failed half-way because of an injected fault;
-	// contents and data/hole map of the cut-off region are unspecified
-	// from then on, so only size, quota and sector conservation are
-	// still checked for this file.
-	poisoned bool
-	shrunk   bool // was shrunk while holding data or hole-source bytes in the cut-off part
-	hs       *fakeHoleSource
+	f      filesystem.FileReadWriter
+	m      *mfile
+	gen    int
+	shrunk bool // was shrunk while holding data or hole-source bytes in the cut-off part
+	hs     *fakeHoleSource
 }
 
 type stats struct {
 	frag, regrow, exhausted, quotaBytes, quotaFiles bool
 	modelHS, hsHole, multi, reuse, partialSector    bool
-	faultSurfaced, poisoned, split                  bool
+	faultSurfaced, split                            bool
+	truncFailedUntouched, truncFailedHalfDone       bool
 }
 
 type engine struct {
@@ -129,15 +125,6 @@ func (e *engine) emptySlots() []int {
 		}
 	}
 	return l
-}
-
-func (e *engine) anyPoisoned() bool {
-	for _, f := range e.files {
-		if f != nil && f.poisoned {
-			return true
-		}
-	}
-	return false
 }
 
 func (e *engine) modelDataSectors() int {
@@ -281,11 +268,6 @@ func (e *engine) apply(st *step) (verr error) {
 			}
 		case err != nil && lenient():
 			e.st.faultSurfaced = true
-		case of.poisoned || e.anyPoisoned():
-			// Sector demand of a poisoned file is unknown.
-			if err == nil && n != len(p) {
-				return fmt.Errorf("WriteAt returned (%d, nil) for %d bytes", n, len(p))
-			}
 		case needed <= free:
 			if n != len(p) || err != nil {
 				return fmt.Errorf("WriteAt of %d bytes at %d returned (%d, %v) although it needs %d new sectors and %d of %d are free", len(p), st.Off, n, err, needed, free, e.cfg.Sectors)
@@ -331,7 +313,7 @@ func (e *engine) apply(st *step) (verr error) {
 			break
 		}
 		size := of.m.size()
-		if !of.poisoned && n > 0 {
+		if n > 0 {
 			if st.Off+int64(n) > size {
 				return fmt.Errorf("ReadAt(%d bytes at %d) returned %d bytes, past the file size %d", st.Len, st.Off, n, size)
 			}
@@ -371,11 +353,41 @@ func (e *engine) apply(st *step) (verr error) {
 				return fmt.Errorf("Truncate(%d) of a file of %d bytes failed: %v", st.Off, size, err)
 			}
 			e.st.faultSurfaced = true
-			// Size and quota stay as they were (checked below through
-			// Len and at the end); contents of the cut-off part are
-			// unspecified after a half-done truncation.
-			of.poisoned = true
-			e.st.poisoned = true
+			// A failed Truncate must leave the file in one of the
+			// states enumerated for the call that failed: length,
+			// every byte and the data/hole map are compared, and the
+			// matching state becomes the model.
+			cands, names := e.truncFailureStates(of.m, st.Off)
+			matched := -1
+			var firstErr error
+			e.plan.paused = true
+			others := e.modelDataSectors() - of.m.dataSectors()
+			for k, c := range cands {
+				cerr := e.checkFile(st.F, of, c, true)
+				if got, want := len(e.spy.outstanding), others+c.dataSectors(); cerr == nil && got != want {
+					// Same bytes and data/hole map, but a different
+					// number of sectors is in use: not this state.
+					cerr = fmt.Errorf("%d sectors are handed out (%v), this state needs %d", got, e.spy.outstandingList(), want)
+				}
+				if cerr == nil {
+					matched = k
+					break
+				}
+				if firstErr == nil {
+					firstErr = cerr
+				}
+			}
+			e.plan.paused = false
+			if matched < 0 {
+				return fmt.Errorf("Truncate(%d) of a file of %d bytes failed (%v, injected %s:%s) and left the file in none of the states a failed truncation may leave behind %v; compared with the untouched file: %v", st.Off, size, err, e.plan.sites[e.plan.failAt], e.plan.kind, names, firstErr)
+			}
+			of.m = cands[matched]
+			if names[matched] == "untouched" {
+				e.st.truncFailedUntouched = true
+			} else {
+				e.st.truncFailedHalfDone = true
+			}
+			st.Res += "/" + names[matched]
 		default:
 			if st.Off < size {
 				e.bytesFree += uint64(size - st.Off)
@@ -409,9 +421,6 @@ func (e *engine) apply(st *step) (verr error) {
 		}
 		if err != nil && err != io.EOF && lenient() {
 			e.st.faultSurfaced = true
-			break
-		}
-		if of.poisoned {
 			break
 		}
 		if err := checkSeek(of.m, st.Off, rt, got, err); err != nil {
@@ -560,16 +569,14 @@ func (e *engine) invariants(touched int) error {
 	if e.prob.first != "" {
 		return fmt.Errorf("%s", e.prob.first)
 	}
-	if !e.anyPoisoned() {
-		if got, want := len(e.spy.outstanding), e.modelDataSectors(); got != want {
-			return fmt.Errorf("%d sectors are handed out (%v) but the files hold %d data sectors according to the model", got, e.spy.outstandingList(), want)
-		}
+	if got, want := len(e.spy.outstanding), e.modelDataSectors(); got != want {
+		return fmt.Errorf("%d sectors are handed out (%v) but the files hold %d data sectors according to the model", got, e.spy.outstandingList(), want)
 	}
 	for i, of := range e.files {
 		if of == nil {
 			continue
 		}
-		if err := e.checkFile(i, of, i == touched); err != nil {
+		if err := e.checkFile(i, of, of.m, i == touched); err != nil {
 			return err
 		}
 	}
@@ -579,28 +586,82 @@ func (e *engine) invariants(touched int) error {
 	return nil
 }
 
-func (e *engine) checkFile(i int, of *ofile, probe bool) error {
-	size := of.m.size()
+// truncFailureStates enumerates the states a Truncate(newSize) that
+// reported an injected failure may leave the file in, as models. Quota
+// and length never change on failure.
+//
+//   - The device write that zeroes the tail of the new last sector fails:
+//     it is the first thing a shrinking truncation does, so the file is
+//     untouched - except that an honest short write has zeroed exactly
+//     the bytes it reported, all of them past the requested size and
+//     inside that one sector. No other byte and no sector may be lost.
+//   - The hole source's Truncate fails (the last step): either nothing
+//     happened, or everything but that step did - the sectors past the
+//     new size are released, the tail of the new last sector is zeroed,
+//     the length is still the old one and the cut-off part reads as what
+//     the (untruncated) hole source holds there.
+func (e *engine) truncFailureStates(m *mfile, newSize int64) ([]*mfile, []string) {
+	ss := int64(m.ss)
+	old := m.size()
+	site := e.plan.sites[e.plan.failAt]
+	untouched := m.clone()
+	if newSize >= old {
+		return []*mfile{untouched}, []string{"untouched"}
+	}
+	sectorEnd := (newSize/ss + 1) * ss
+	tailEnd := sectorEnd
+	if tailEnd > old {
+		tailEnd = old
+	}
+	lastIsData := newSize%ss != 0 && m.isAlloc(newSize/ss)
+	switch site {
+	case "dev.write":
+		if e.plan.kind == "short" && lastIsData {
+			k := (tailEnd - newSize) / 2
+			for x := newSize; x < newSize+k; x++ {
+				untouched.data[x] = 0
+			}
+			return []*mfile{untouched}, []string{"untouched-but-reported-bytes-zeroed"}
+		}
+		return []*mfile{untouched}, []string{"untouched"}
+	case "hs.trunc":
+		done := m.clone()
+		firstFreed := (newSize + ss - 1) / ss
+		for s := firstFreed; s < int64(len(done.alloc)); s++ {
+			done.alloc[s] = false
+		}
+		if lastIsData {
+			for x := newSize; x < tailEnd; x++ {
+				done.data[x] = 0
+			}
+		}
+		for x := firstFreed * ss; x < old; x++ {
+			done.data[x] = done.holeSourceByte(x)
+		}
+		return []*mfile{untouched, done}, []string{"untouched", "all-but-hole-source-truncated"}
+	}
+	return []*mfile{untouched}, []string{"untouched"}
+}
+
+func (e *engine) checkFile(i int, of *ofile, m *mfile, probe bool) error {
+	size := m.size()
 	l, err := of.f.Len()
 	if err != nil || l != size {
 		return fmt.Errorf("file %d: Len() = (%d, %v), model size %d", i, l, err, size)
-	}
-	if of.poisoned {
-		return nil
 	}
 	buf := bytes.Repeat([]byte{0xee}, int(size)+1)
 	n, err := of.f.ReadAt(buf, 0)
 	if int64(n) != size || err != io.EOF {
 		return fmt.Errorf("file %d: reading the whole file (%d bytes + 1) returned (%d, %v)", i, size, n, err)
 	}
-	if d := firstDiff(buf[:n], of.m.data); d >= 0 {
-		return fmt.Errorf("file %d: byte at offset %d is %#x, model says %#x (sector size %d)", i, d, buf[d], of.m.data[d], e.cfg.SS)
+	if d := firstDiff(buf[:n], m.data); d >= 0 {
+		return fmt.Errorf("file %d: byte at offset %d is %#x, model says %#x (sector size %d)", i, d, buf[d], m.data[d], e.cfg.SS)
 	}
 	if !probe {
 		return nil
 	}
 	// Data/hole map: probe around every sector boundary and the end.
-	nextData, nextHole := seekTables(of.m)
+	nextData, nextHole := seekTables(m)
 	ss := int64(e.cfg.SS)
 	probeAt := func(x int64) error {
 		if x < 0 || x > size {
